@@ -522,8 +522,49 @@ func verifC23Gen(r *verifutil.Rand, i int, thorough bool) []string {
 		// RTP publisher: one packet per unit; mostly within the maximum, sometimes beyond (camera MTU larger
 		// than the server's).  H264: single NAL unit packets; m4v / latm: whole frame with marker.
 		sz := 1 + r.Intn(max)
-		if r.Chance(1, 4) {
+		switch r.Intn(8) {
+		case 0, 1:
 			sz = max + 1 + r.Intn(max)
+		case 2:
+			sz = max - 1 + r.Intn(3) // max-1, max, max+1
+		}
+		ts := (int64(tsBase) + pts) & 0xffffffff
+		emit := func(marker int, pay []byte) {
+			ops = append(ops, fmt.Sprintf("r %d %d %d %d %d %s", pts, seq, ts, ssrc, marker, verifutil.Hex(pay)))
+			seq = (seq + 1) & 0xffff
+		}
+		if r.Chance(1, 4) {
+			// a frame spread over 2..3 publisher packets (each packet is its own unit, as RTSP sources deliver
+			// them): the first ones decode to a nil payload
+			k := 2 + r.Intn(2)
+			if codec == "h264" {
+				nalu := verifC23NALU264(r, k*sz+1)
+				body := nalu[1:]
+				for x := 0; x < k; x++ {
+					piece := body[x*sz : (x+1)*sz]
+					fh := nalu[0] & 0x1F
+					if x == 0 {
+						fh |= 0x80
+					}
+					if x == k-1 {
+						fh |= 0x40
+					}
+					m := 0
+					if x == k-1 {
+						m = 1
+					}
+					emit(m, append([]byte{nalu[0]&0x60 | 28, fh}, piece...))
+				}
+			} else {
+				for x := 0; x < k; x++ {
+					m := 0
+					if x == k-1 {
+						m = 1
+					}
+					emit(m, r.Bytes(sz))
+				}
+			}
+			continue
 		}
 		var pay []byte
 		if codec == "h264" {
@@ -531,9 +572,7 @@ func verifC23Gen(r *verifutil.Rand, i int, thorough bool) []string {
 		} else {
 			pay = r.Bytes(sz)
 		}
-		ts := (int64(tsBase) + pts) & 0xffffffff
-		ops = append(ops, fmt.Sprintf("r %d %d %d %d 1 %s", pts, seq, ts, ssrc, verifutil.Hex(pay)))
-		seq = (seq + 1) & 0xffff
+		emit(1, pay)
 	}
 	return ops
 }
